@@ -396,6 +396,9 @@ class C12(PipelineCheck):
 
         def e_true(lang, node):
             return True
+
+        def e_not_java_groovy(lang, node):
+            return None if lang in ('java', 'groovy') else True
         for node, path, parents in walk.iter_nodes(program):
             if isinstance(node, ast.VariableDeclaration):
                 if node.var_type is not None:
@@ -426,7 +429,11 @@ class C12(PipelineCheck):
                 in_lambda = any(isinstance(x, ast.Lambda) for x in parents[-1:])
                 if not in_lambda:
                     sites.append((path, 'param_type', None, 'param_type', e_true))
-                    sites.append((path, 'vararg', None, 'flag_vararg', e_true))
+                    # (a nested function is rendered as a lambda / closure by the Java and
+                    # Groovy translators, which cannot express a variable-arity parameter)
+                    nested = any(isinstance(x, ast.Block) for x in parents)
+                    sites.append((path, 'vararg', None, 'flag_vararg',
+                                  e_not_java_groovy if nested else e_true))
             elif isinstance(node, ast.FieldDeclaration):
                 sites.append((path, 'field_type', None, 'field_type', e_true))
             elif isinstance(node, ast.ClassDeclaration):
